@@ -696,6 +696,103 @@ def r11_13(ctx, rep):
                % (norm(v.slice)[:60] if isinstance(v, ast.Subscript) else norm(v)[:60]))
 
 
+@SPEC.rule(
+    "R11.15",
+    "a condition selects, it is not computed with: in exitIfExpression, exitIfEquation and exitIfStatement the translated condition of a branch "
+    "is used as the first argument of ca.if_else and nowhere else — `or` is translated to a sum, so a condition can evaluate to 2, and "
+    "`c * a + (1 - c) * b` is then neither branch",
+)
+def r11_15(ctx, rep):
+    R = "R11.15"
+    n = 0
+    for hname in ("exitIfExpression", "exitIfEquation", "exitIfStatement"):
+        fn = ctx.func(GEN, "Generator." + hname, R)
+        site = GEN + ":Generator." + hname
+        parents = {}
+        for p_ in ast.walk(fn):
+            for ch in ast.iter_child_nodes(p_):
+                parents[id(ch)] = p_
+        # loop variables that run over tree.conditions (directly or zipped)
+        cond_iter = set()
+        for lp in ast.walk(fn):
+            if isinstance(lp, ast.For) and any(isinstance(a, ast.Attribute) and a.attr == "conditions" for a in ast.walk(lp.iter)):
+                cond_iter |= {x.id for x in ast.walk(lp.target) if isinstance(x, ast.Name)}
+
+        def is_cond_source(e):
+            return any(isinstance(c.func, ast.Attribute) and c.func.attr == "get_mx" and c.args and (
+                any(isinstance(a, ast.Attribute) and a.attr == "conditions" for a in ast.walk(c.args[0]))
+                or (isinstance(c.args[0], ast.Name) and c.args[0].id in cond_iter)) for c in calls(e))
+
+        def is_cond_value(v):
+            # the translated condition itself, possibly passed through conversions (`ca.MX(self.get_mx(c))`)
+            while isinstance(v, ast.Call) and len(v.args) == 1 and not v.keywords and not (isinstance(v.func, ast.Attribute) and v.func.attr == "get_mx"):
+                v = v.args[0]
+            return isinstance(v, ast.Call) and isinstance(v.func, ast.Attribute) and v.func.attr == "get_mx" and is_cond_source(v)
+
+        cond_names = {st.targets[0].id for st in walk_local(fn) if isinstance(st, ast.Assign) and isinstance(st.targets[0], ast.Name) and is_cond_value(st.value)}
+        sources = [e for st in walk_local(fn) for e in ast.walk(st) if isinstance(e, ast.Call) and isinstance(e.func, ast.Attribute) and e.func.attr == "get_mx" and is_cond_source(e)]
+        if not sources:
+            raise MechanismMissing(R, "%s does not translate tree.conditions with get_mx" % hname)
+
+        def selecting_use(node):
+            """node (a Name load or the get_mx call) is the first argument of ca.if_else, possibly through a pure re-binding of the same name"""
+            par = parents.get(id(node))
+            if isinstance(par, ast.Call) and (call_name(par) or "").split(".")[-1] == "if_else" and par.args and par.args[0] is node:
+                return True
+            return False
+
+        uses = []
+        for x in ast.walk(fn):
+            if isinstance(x, ast.Name) and isinstance(x.ctx, ast.Load) and x.id in cond_names:
+                # re-binding `cond = f(cond)` of the translated condition counts as a use by f
+                uses.append(x)
+        for src_ in sources:
+            top = src_
+            while isinstance(parents.get(id(top)), ast.Call) and len(parents[id(top)].args) == 1 and parents[id(top)].args[0] is top \
+                    and (call_name(parents[id(top)]) or "").split(".")[-1] != "if_else":
+                top = parents[id(top)]
+            par = parents.get(id(top))
+            if not (isinstance(par, ast.Assign) and par.value is top):
+                uses.append(src_)
+        for u in uses:
+            n += 1
+            # `cond` handed to get_mx itself (cond = self.get_mx(cond)) is the untranslated condition, not a use of the translated one
+            par = parents.get(id(u))
+            if isinstance(par, ast.Call) and isinstance(par.func, ast.Attribute) and par.func.attr == "get_mx":
+                continue
+            rep.ob(R, site, "condition `%s` (line offset %d) only selects" % (norm(u)[:40], len([y for y in uses[:uses.index(u)]])), selecting_use(u),
+                   "the translated condition is used in `%s`, not as the selector of ca.if_else: with a condition that evaluates to 2 (`a or b`, "
+                   "both true) an arithmetic blend gives a value that is neither branch" % norm(parents.get(id(u)))[:80])
+    if n < 3:
+        raise MechanismMissing(R, "fewer than 3 uses of translated conditions found in the if handlers")
+
+
+@SPEC.rule(
+    "R11.16",
+    "every equation's residual is lhs - rhs: each value Generator.exitEquation stores for the equation is <derived from tree.left> - <derived "
+    "from tree.right>, on every path — no special form for `0 = expr` or `x = 0` (rhs alone is the residual with its sign flipped)",
+)
+def r11_16(ctx, rep):
+    from ..cfg import CFG
+    R = "R11.16"
+    fn = ctx.func(GEN, "Generator.exitEquation", R)
+    site = GEN + ":Generator.exitEquation"
+    src = _sources(fn, {"tree.left": "left", "tree.right": "right"})
+    stores = [n for n in walk_local(fn) if isinstance(n, ast.Assign) and norm(n.targets[0]) == "self.src[tree]"]
+    if not stores:
+        raise MechanismMissing(R, "exitEquation stores nothing under self.src[tree]")
+    for k, st in enumerate(stores):
+        v = st.value
+        ok = isinstance(v, ast.BinOp) and isinstance(v.op, ast.Sub) and isinstance(v.left, ast.Name) and isinstance(v.right, ast.Name) \
+            and src.get(v.left.id) == {"left"} and src.get(v.right.id) == {"right"}
+        rep.ob(R, site, "store #%d is lhs - rhs" % (k + 1), ok,
+               "`%s`: the value stored for the equation is not <left side> - <right side>" % norm(st)[:80])
+    cfg = CFG(fn, R)
+    nodes = {x.id for x in cfg.stmts() if x.ast in stores}
+    bad = cfg.must_pass(cfg.entry, cfg.exit, nodes)
+    rep.ob(R, site, "every equation gets a residual", bad is None, "exitEquation can return without storing the equation's residual", path=cfg.describe(bad) if bad else "")
+
+
 # -- seeded variants ---------------------------------------------------------
 from ._mut import replace_in_func  # noqa: E402
 
